@@ -633,6 +633,7 @@ impl HttpContext {
         let mut has_x_port = false;
         let mut has_x_proto = false;
         let mut has_x_request_id = false;
+        let mut last_x_request_id: Option<&mut kawa::Pair> = None;
         let mut has_connection = false;
         #[cfg(feature = "opentelemetry")]
         let mut traceparent: Option<&mut kawa::Pair> = None;
@@ -733,11 +734,19 @@ impl HttpContext {
                         // client-supplied value verbatim — overwriting it
                         // breaks end-to-end request tracing.
                         has_x_request_id = true;
+                        // Exactly one request id is forwarded: when the
+                        // client repeats the field, the last one wins (it is
+                        // the one recorded for the access log) and the
+                        // earlier ones are dropped.
+                        if let Some(previous) = last_x_request_id {
+                            previous.elide();
+                        }
                         self.x_request_id = header
                             .val
                             .data_opt(buf)
                             .and_then(|data| from_utf8(data).ok())
                             .map(ToOwned::to_owned);
+                        last_x_request_id = Some(header);
                     } else {
                         #[cfg(feature = "opentelemetry")]
                         if compare_no_case(key, b"traceparent") {
